@@ -87,7 +87,7 @@ PROPS["C02"] = {
              "max_read_width w in {1,2,3,5,100}; 3 (quick) / 8 (thorough) tape-chosen schedules. Oracle 1: allowed under (r,g,w) => allowed by the unbounded reference R1 (non-stratified cases skipped and counted). "
              "Oracle 2: the same schedule tape against global depth eff(r,g) with request depth 0 gives the same decision and the same storage-call trace. "
              "non-trivial = a depth or width cut actually happened in the run (engine log probes); distinct = hash of (config, tuples, query, g, r, w)."),
-    "probes": ["probe_depth_cut", "probe_depth_cut_with_negation", "probe_width_cut", "probe_cut_turned_allowed_into_denied", "probe_request_depth_nonpositive", "probe_request_depth_above_global", "probe_request_depth_lowers", "probe_batch_entry_point", "pairs_equal", "allowed_under_limit"],
+    "probes": ["probe_depth_cut", "probe_depth_cut_with_negation", "probe_width_cut", "probe_fanout_below_negation", "probe_cut_turned_allowed_into_denied", "probe_request_depth_nonpositive", "probe_request_depth_above_global", "probe_request_depth_lowers", "probe_batch_entry_point", "pairs_equal", "allowed_under_limit"],
     "real": REAL_E, "stub": STUB_E,
     "fault_kinds": {},
     "assumptions": ["unbounded semantics = least fixed point of the stratified reference R1", "eff(r,g) as stated in the property"],
@@ -167,7 +167,7 @@ PROPS["C07"] = {
              "mode 'writes': between page fetches another client inserts / deletes matching and non-matching rows. Oracles: every page <= page_size (0 => 100); every row alive for the whole iteration is returned, no content more often than it existed; "
              "without a concurrent matching write the pages are exactly ceil(n/size) (token empty <=> last page) and the multiset is exact; mode 'token': malformed page tokens are answered 4xx / InvalidArgument-class; one run in twelve uses 999..5003 rows with page sizes 500..7000; mode 'traverse' (the internal consumers of paging): a node with 99..3001 subject sets, exactly one of which - at a chosen position in storage order, biased to multiples of 100 / 1000 and the ends - contains the subject: the check must find it, must not allow an outsider, and the listing must return every row once. "
              "non-trivial = iteration needed >= 2 pages (mode token: every run); distinct = hash of (query, n, page size, transport, interleaving)."),
-    "probes": ["probe_boundary_size", "probe_100_plus_rows", "probe_default_page_size", "interleaved_matching_insert", "interleaved_matching_delete", "interleaved_other_write", "malformed_tokens_rest", "malformed_tokens_grpc", "lookalike_tokens", "probe_fully_qualified_query_over_copies", "probe_thousands_of_rows", "probe_wide_node_over_1000", "traverse_cases"],
+    "probes": ["probe_boundary_size", "probe_100_plus_rows", "probe_default_page_size", "interleaved_matching_insert", "interleaved_matching_delete", "interleaved_other_write", "malformed_tokens_rest", "malformed_tokens_grpc", "lookalike_tokens", "probe_fully_qualified_query_over_copies", "probe_thousands_of_rows", "probe_tens_of_thousands_of_rows", "probe_wide_node_over_1000", "traverse_cases"],
     "real": REAL_S, "stub": STUB_S,
     "fault_kinds": {},
     "assumptions": ["rows with equal content are indistinguishable in API output, so exactly-once is checked per content as a multiset bound"],
@@ -213,14 +213,15 @@ PROPS["C05"] = {
               {"name": "crash", "runs": {"quick": 120, "thorough": 3000}, "chunk": 10},
               {"name": "crash-wal", "runs": {"quick": 60, "thorough": 1500}, "chunk": 10},
               {"name": "isolation", "runs": {"quick": 150, "thorough": 4000}, "chunk": 25},
-              {"name": "isolation-wal", "runs": {"quick": 80, "thorough": 2000}, "chunk": 25}],
+              {"name": "isolation-wal", "runs": {"quick": 80, "thorough": 2000}, "chunk": 25},
+              {"name": "stmt-interleave", "runs": {"quick": 600, "thorough": 20000}, "chunk": 50}],
     "rule": ("mode faults: one run = one gRPC transact / REST patch request, or one direct Manager.WriteRelationTuples / DeleteRelationTuples call (the multi-tuple create / delete, without a handler transaction around it), with |I|,|D| drawn around the DISCOVERED chunk boundaries (doubling sweep + bisection on the number of INSERT/DELETE statements seen at the SQL seam), on a pre-state that contains the rows to delete and unrelated rows; "
              "the fault-free run fixes the N statements (BEGIN, mapping insert, every chunk, COMMIT) and the after-state; then for EVERY k<=N x {io,busy,badconn,full,ctx} the request is re-run from the restored pre-state with a fail-stop fault at statement k: state in {before, after}, before when an error was returned; "
              "then an invalid tuple (no subject / unknown namespace / unknown subject-set namespace) at every position (sampled for large requests, always including both sides of a chunk boundary); an L2 monitor requires one BEGIN, one COMMIT and every write statement on that connection. "
              "mode crash / crash-wal: file-backed SQLite (rollback journal / WAL); at every statement k all connections die and the database files are copied as a kill -9 would leave them; the copy is reopened: state in {before} (the commit had not run), and after a crash right after the acknowledgement: exactly after. "
              "mode isolation / isolation-wal (tier T): a writer toggling transact(insert X, delete Y) is parked before each of its statements while readers (REST list, gRPC list with paging, two checks) run to completion; the recorded history (event sequence numbers) is checked with porcupine against a two-state model. "
              "non-trivial = request touches >= 2 tuples (isolation: at least one read overlapped the transaction); distinct = hash of request shape and pre-state."),
-    "probes": ["probe_multi_chunk_insert", "probe_multi_chunk_delete", "probe_direct_manager_call", "failed_atomically", "invalid_positions", "invalid_positions_manager", "fault_crash", "fault_crash_after_ack", "reads_during_transaction", "porcupine_ok"],
+    "probes": ["probe_multi_chunk_insert", "probe_multi_chunk_delete", "probe_direct_manager_call", "failed_atomically", "invalid_positions", "invalid_positions_manager", "fault_crash", "fault_crash_after_ack", "reads_during_transaction", "porcupine_ok", "probe_reader_and_writer_interleaved"],
     "real": REAL_S + ["SQLite file locking, rollback journal and WAL recovery (file-backed database in crash / isolation modes)", "porcupine v1.3.0 linearizability checker (isolation modes)"], "stub": STUB_S + ["crash = death of every connection + copy of the database files at that instant; power loss / torn pages / fsync lies are below any keto code and not modelled"],
     "fault_kinds": {"io": "statement returns an I/O error", "busy": "database is locked (pop retries)", "badconn": "driver.ErrBadConn", "full": "SQLITE_FULL", "ctx": "context.Canceled", "crash": "all connections die at statement k, files snapshotted"},
     "assumptions": ["fail-stop faults only: a 'commit succeeded but the ack was lost' fault without a crash is not injected (no implementation can satisfy 'unchanged when an error was returned' under it)", "isolation observed is SQLite's; keto's contribution (one transaction, every statement on the ctx connection) is what the monitor checks"],
